@@ -481,9 +481,9 @@ func (s *SourceControl) WriteControl(config *WriteControlConfig, reply *bool) er
 	config.MapInternalOnly = s.mapServer.Map
 	f := func() {
 		err := s.ActiveSource.WriteControl(config)
-		if err == nil {
-			s.broadcastWritingState()
-		}
+		// Tell the clients the writing state whether or not the request reports an error: a START or
+		// STOP that met an I/O failure in one of the run's side files has changed the state all the same.
+		s.broadcastWritingState()
 		s.queuedResults <- err
 	}
 	err := s.runLaterIfActive(f)
